@@ -600,6 +600,8 @@ func (e *engine) checkBinding(fc *funcContract, fn *ssa.Function) error {
 }
 
 var tokRe = regexp.MustCompile(`[A-Za-z_][A-Za-z0-9_]*|\d+|[^\sA-Za-z0-9_]`)
+var goKeyword = map[string]bool{"break": true, "case": true, "chan": true, "const": true, "continue": true, "default": true, "defer": true, "else": true, "fallthrough": true, "for": true, "func": true, "go": true, "goto": true, "if": true, "import": true, "interface": true, "map": true, "package": true, "range": true, "return": true, "select": true, "struct": true, "switch": true, "type": true, "var": true, "len": true, "cap": true, "nil": true, "true": true, "false": true}
+
 var identRe = regexp.MustCompile(`^[A-Za-z_][A-Za-z0-9_]*$`)
 
 // renamedIdents: if the loop hint occurs in the loop header up to a consistent renaming of
@@ -619,7 +621,7 @@ func renamedIdents(hint, header string) map[string]string {
 				}
 				continue
 			}
-			if !identRe.MatchString(h) || !identRe.MatchString(t) {
+			if !identRe.MatchString(h) || !identRe.MatchString(t) || goKeyword[h] || goKeyword[t] {
 				ok = false
 				break
 			}
